@@ -47,8 +47,19 @@ Inductive reply :=                                             (* RateLimitAcqui
 | ROld                    (* Error = "RequestIDTooOld" *)
 | ROk (accept : bool) (limit : Z).
 
+(* what the (scripted) limiter server does with one acquire call of the counter manager *)
+Inductive sreply :=
+| SvAccept (limit : Z) | SvReject (limit : Z)
+| SvError               (* a result with Error set *)
+| SvCallErr             (* the call fails: doAcquire synthesizes an error result for every request *)
+| SvOmit.               (* the call succeeds but carries no result for the schema: a MISSING reply *)
+
 Inductive ev :=
 | EQuota (it : item)            (* reconcile.updateFlowControls with a server answer for the schema *)
+| EWorker (idle : bool) (sv : sreply) (mx rate : Z)
+                                (* one round of the counter manager's worker (doAcquire): idle = no request was
+                                   counted since the last round; mx, rate = meter readings if the reply is an error *)
+| EWatchdog (mx rate : Z)       (* one tick of globalCounter.resetCheck *)
 | ECfgSync                      (* reconcile.updateGlobalCuntFlowControls *)
 | ECount (r : reply) (rt : Z)   (* globalCounter.send -> remoteWrapper.SetLimit, rt = requestTime *)
 | EHb (ok : bool)               (* one heartbeat outcome -> clientSets.setLeaderStatus *)
@@ -71,7 +82,8 @@ Record inner := {
   iqps : Z; iburst : Z;        (* tokenBucketWrapper.qps / burst (uint32) *)
   iun : bool; iover : bool;    (* serverUnavailable / overLimited *)
   ilast : Z;                   (* maxInflightWrapper.lastAcquireTime *)
-  ifb : Z                      (* (fy) fallback: max(observed, local) when the server became unavailable *)
+  ifb : Z;                     (* (fy) fallback: max(observed, local) when the server became unavailable *)
+  isync : Z                    (* globalCounter.lastSyncTime (Unix seconds) of the counter created with this limiter *)
 }.
 Record rwrap := { rin : option inner; rcfg : option item }.    (* remoteWrapper; rcfg None = zero value *)
 
@@ -80,12 +92,15 @@ Record state := {
   scfg : config;               (* localConfig: type and limits currently configured *)
   sstr : strategy;             (* localConfig.Strategy *)
   rem : option rwrap;          (* flowControlCache.remote *)
-  hlast : bool; hready : bool; hage : Z;   (* heartbeatStatus: lastState, ready, seconds since lastChange *)
-  crashed : bool               (* a nil dereference happened in the reconcile goroutine *)
+  hlast : bool; hready : bool; hage : Z;   (* heartbeatStatus: lastState, ready, milliseconds since lastChange *)
+  crashed : bool;              (* a nil dereference happened in the reconcile goroutine *)
+  snow : Z;                    (* the clock: milliseconds since the start of the history *)
+  srounds : Z                  (* worker rounds so far (one virtual nanosecond each: request times are distinct) *)
 }.
 
 Definition init (c : config) (s : strategy) : state :=
-  {| present := true; scfg := c; sstr := s; rem := None; hlast := false; hready := false; hage := 0; crashed := false |}.
+  {| present := true; scfg := c; sstr := s; rem := None; hlast := false; hready := false; hage := 0; crashed := false;
+     snow := 0; srounds := 0 |}.
 
 (* ---------- small helpers ---------- *)
 Definition strategy_eqb (a b : strategy) : bool :=
@@ -145,7 +160,7 @@ Definition reserve_of (fx : bool) (mx : Z) : Z :=
 (* ---------- the global-count wrappers ---------- *)
 Definition set_il (i : inner) (l : lim) : inner :=
   {| iw := iw i; il := l; imax := imax i; irsv := irsv i; iqps := iqps i; iburst := iburst i;
-     iun := iun i; iover := iover i; ilast := ilast i; ifb := ifb i |}.
+     iun := iun i; iover := iover i; ilast := ilast i; ifb := ifb i; isync := isync i |}.
 
 (* maxInflightWrapper.Resize(max uint32, _); (fy) while the server is unavailable the fallback in
    force is kept within the new maximum: unavailableMax() *)
@@ -157,7 +172,7 @@ Definition mi_resize (fx fy : bool) (i : inner) (n : Z) : inner :=
            then (if fy then resize_lim (il i) (wrapu32 (if mx <? ifb i then mx else ifb i)) 0 else il i)
            else resize_lim (il i) (wrapu32 r) 0;
      imax := mx; irsv := r; iqps := iqps i; iburst := iburst i;
-     iun := iun i; iover := iover i; ilast := ilast i; ifb := ifb i |}.
+     iun := iun i; iover := iover i; ilast := ilast i; ifb := ifb i; isync := isync i |}.
 
 (* tokenBucketWrapper.Resize(qps, burst uint32): the unrepaired code stores burst := qps;
    (fy) unavailableLimits() while the server is unavailable *)
@@ -170,7 +185,7 @@ Definition tb_resize (fx fy : bool) (i : inner) (q b : Z) : inner :=
                  else il i)
            else resize_lim (il i) q b;
      imax := imax i; irsv := irsv i; iqps := q; iburst := b';
-     iun := iun i; iover := iover i; ilast := ilast i; ifb := ifb i |}.
+     iun := iun i; iover := iover i; ilast := ilast i; ifb := ifb i; isync := isync i |}.
 
 Definition inner_resize (fx fy : bool) (i : inner) (n b : Z) : inner :=
   match iw i with
@@ -179,17 +194,18 @@ Definition inner_resize (fx fy : bool) (i : inner) (n b : Z) : inner :=
   | WTB => tb_resize fx fy i n b
   end.
 
-Definition blank (w : wk) (l : lim) : inner :=
+Definition blank (w : wk) (l : lim) (t : Z) : inner :=
   {| iw := w; il := l; imax := 0; irsv := 0; iqps := 0; iburst := 0; iun := false; iover := false; ilast := 0;
-     ifb := 0 |}.
+     ifb := 0; isync := t |}.
 
 (* remoteWrapper.newFlowControl + newFlowControlCounter; None = nil dereference *)
-Definition new_inner (fx fy : bool) (it : item) : option inner :=
+(* [t]: the clock (Unix seconds): a global-count limiter gets a counter whose watchdog starts now *)
+Definition new_inner (fx fy : bool) (t : Z) (it : item) : option inner :=
   let fc := new_lim (idet it) in
-  if negb (strategy_eqb (istr it) SCount) then Some (blank WEmpty fc)
+  if negb (strategy_eqb (istr it) SCount) then Some (blank WEmpty fc t)
   else match idet it with
-       | DMI m | DBoth m _ _ => Some (mi_resize fx fy (blank WMI fc) (wrapu32 m))
-       | DTB q b => Some (tb_resize fx fy (blank WTB fc) (wrapu32 q) (wrapu32 b))
+       | DMI m | DBoth m _ _ => Some (mi_resize fx fy (blank WMI fc t) (wrapu32 m))
+       | DTB q b => Some (tb_resize fx fy (blank WTB fc t) (wrapu32 q) (wrapu32 b))
        | DNone => None            (* default branch reads limitItem.TokenBucket.QPS of a nil pointer *)
        end.
 
@@ -207,12 +223,12 @@ Definition rcfg_is (w : rwrap) (it : item) : bool :=
   match rcfg w with Some x => item_eqb x it | None => false end.
 
 (* remoteWrapper.Sync; None = nil dereference *)
-Definition rw_sync (fx fy : bool) (c : config) (w : rwrap) (it0 : item) : option rwrap :=
+Definition rw_sync (fx fy : bool) (c : config) (t : Z) (w : rwrap) (it0 : item) : option rwrap :=
   match (if fx then sanitize c it0 else Some it0) with
   | None => Some w                                      (* repaired: answer of the wrong type is ignored *)
   | Some it =>
       if rcfg_is w it then Some w else
-      let recreate := match new_inner fx fy it with
+      let recreate := match new_inner fx fy t it with
                       | Some i => Some {| rin := Some i; rcfg := Some it |}
                       | None => None
                       end in
@@ -253,17 +269,17 @@ Definition set_limit (fx : bool) (c : config) (i : inner) (r : reply) (rt : Z) :
               let x := if fx && (imax i <? x0) then imax i else x0 in
               Some {| iw := WMI; il := resize_lim (il i) (wrapu32 x) 0; imax := imax i; irsv := irsv i;
                       iqps := iqps i; iburst := iburst i; iun := true; iover := iover i; ilast := ilast i;
-                      ifb := x0 |}
+                      ifb := x0; isync := isync i |}
           end
       | ROk true limit =>
           let v := if limit <? irsv i then irsv i else limit in
           let v := if imax i <? v then imax i else v in
           Some {| iw := WMI; il := resize_lim (il i) (wrapu32 v) 0; imax := imax i; irsv := irsv i;
-                  iqps := iqps i; iburst := iburst i; iun := false; iover := false; ilast := rt; ifb := ifb i |}
+                  iqps := iqps i; iburst := iburst i; iun := false; iover := false; ilast := rt; ifb := ifb i; isync := isync i |}
       | ROk false limit =>
           let v := if fx then clamp limit 0 (imax i) else limit in
           Some {| iw := WMI; il := resize_lim (il i) (wrapu32 v) 0; imax := imax i; irsv := irsv i;
-                  iqps := iqps i; iburst := iburst i; iun := iun i; iover := true; ilast := rt; ifb := ifb i |}
+                  iqps := iqps i; iburst := iburst i; iun := iun i; iover := true; ilast := rt; ifb := ifb i; isync := isync i |}
       end
   | WTB =>
       match r with
@@ -278,13 +294,13 @@ Definition set_limit (fx : bool) (c : config) (i : inner) (r : reply) (rt : Z) :
               let b := wrapu32 (if fx && (iburst i <? x) then iburst i else x) in
               Some {| iw := WTB; il := resize_lim (il i) q b; imax := imax i; irsv := irsv i;
                       iqps := iqps i; iburst := iburst i; iun := true; iover := iover i; ilast := ilast i;
-                      ifb := x |}
+                      ifb := x; isync := isync i |}
           end
       | ROk true _ =>
           if iun i
           then Some {| iw := WTB; il := resize_lim (il i) (iqps i) (iburst i); imax := imax i; irsv := irsv i;
                        iqps := iqps i; iburst := iburst i; iun := false; iover := iover i; ilast := ilast i;
-                       ifb := ifb i |}
+                       ifb := ifb i; isync := isync i |}
           else Some i
       | ROk false _ => Some i
       end
@@ -292,16 +308,18 @@ Definition set_limit (fx : bool) (c : config) (i : inner) (r : reply) (rt : Z) :
 
 (* ---------- state updates ---------- *)
 Definition set_rem (s : state) (r : option rwrap) : state :=
-  {| present := present s; scfg := scfg s; sstr := sstr s; rem := r; hlast := hlast s; hready := hready s; hage := hage s; crashed := crashed s |}.
+  {| present := present s; scfg := scfg s; sstr := sstr s; rem := r; hlast := hlast s; hready := hready s; hage := hage s; crashed := crashed s; snow := snow s; srounds := srounds s |}.
 Definition crash (s : state) : state :=
-  {| present := present s; scfg := scfg s; sstr := sstr s; rem := rem s; hlast := hlast s; hready := hready s; hage := hage s; crashed := true |}.
+  {| present := present s; scfg := scfg s; sstr := sstr s; rem := rem s; hlast := hlast s; hready := hready s; hage := hage s; crashed := true; snow := snow s; srounds := srounds s |}.
 
 Definition empty_rw : rwrap := {| rin := None; rcfg := None |}.
 
 (* EnableRemoteFlowControl (if needed) followed by remoteWrapper.Sync(it) *)
+Definition now_sec (s : state) : Z := snow s / 1000.       (* time.Now().Unix() *)
+
 Definition apply_sync (fx fy : bool) (c : config) (s : state) (it : item) : state :=
   let w := match rem s with Some w => w | None => empty_rw end in
-  match rw_sync fx fy c w it with
+  match rw_sync fx fy c (now_sec s) w it with
   | Some w' => set_rem s (Some w')
   | None => crash s
   end.
@@ -313,14 +331,14 @@ Definition heartbeat (s : state) (ok : bool) : state :=
   let rdy := if Bool.eqb (hready s) ok then hready s
              else if ok then true
              else if 5000 <=? age then false else hready s in      (* now.After(lastChange + 5 s) *)
-  {| present := present s; scfg := scfg s; sstr := sstr s; rem := rem s; hlast := ok; hready := rdy; hage := age; crashed := crashed s |}.
+  {| present := present s; scfg := scfg s; sstr := sstr s; rem := rem s; hlast := ok; hready := rdy; hage := age; crashed := crashed s; snow := snow s; srounds := srounds s |}.
 
 Definition config_eqb (a b : config) : bool :=
   (l1 a =? l1 b) && (l2 a =? l2 b) && (g1 a =? g1 b) && (g2 a =? g2 b).
 
 Definition set_cfg (s : state) (c : config) (x : strategy) (r : option rwrap) : state :=
   {| present := true; scfg := c; sstr := x; rem := r;
-     hlast := hlast s; hready := hready s; hage := hage s; crashed := crashed s |}.
+     hlast := hlast s; hready := hready s; hage := hage s; crashed := crashed s; snow := snow s; srounds := srounds s |}.
 
 (* UpstreamLimiter.Sync with the schema (type k, strategy x, limits c') *)
 Definition sync_schema (fx fy fz : bool) (s : state) (c' : config) (x : strategy) : state :=
@@ -337,7 +355,7 @@ Definition sync_schema (fx fy fz : bool) (s : state) (c' : config) (x : strategy
     | Some w =>
         match rin w, rcfg w with
         | Some _, Some it =>
-            match rw_sync fx fy c' w it with
+            match rw_sync fx fy c' (now_sec s) w it with
             | Some w' => set_cfg s c' x (Some w')
             | None => crash (set_cfg s c' x (rem s))
             end
@@ -346,6 +364,36 @@ Definition sync_schema (fx fy fz : bool) (s : state) (c' : config) (x : strategy
     | None => set_cfg s c' x None
     end
   else set_cfg s c' x (rem s).
+
+Definition set_rounds (s : state) (n : Z) : state :=
+  {| present := present s; scfg := scfg s; sstr := sstr s; rem := rem s; hlast := hlast s; hready := hready s;
+     hage := hage s; crashed := crashed s; snow := snow s; srounds := n |}.
+Definition set_sync (i : inner) (t : Z) : inner :=
+  {| iw := iw i; il := il i; imax := imax i; irsv := irsv i; iqps := iqps i; iburst := iburst i;
+     iun := iun i; iover := iover i; ilast := ilast i; ifb := ifb i; isync := t |}.
+Definition has_counter (i : inner) : bool := match iw i with WEmpty => false | _ => true end.
+Definition reply_of (sv : sreply) (mx rate : Z) : reply :=
+  match sv with
+  | SvAccept l => ROk true l
+  | SvReject l => ROk false l
+  | _ => RErr mx rate
+  end.
+(* requestTime of a round: UnixNano of the virtual clock, one nanosecond per round *)
+Definition request_time (s : state) : Z := snow s * 1000000 + srounds s + 1.
+(* the counter that takes part in the acquire request of this round, if any *)
+Definition worker_target (st : static) (s : state) (idle : bool) : option (rwrap * inner) :=
+  match cs st with
+  | CSOk =>
+      match rem s with
+      | Some w =>
+          match rin w with
+          | Some i => if has_counter i && (negb idle || (2 <? now_sec s - isync i)) then Some (w, i) else None
+          | None => None
+          end
+      | None => None
+      end
+  | _ => None                                   (* ClientFor fails: no round *)
+  end.
 
 Definition step (fx fy fz : bool) (st : static) (s : state) (e : ev) : state :=
   let c := scfg s in
@@ -368,18 +416,51 @@ Definition step (fx fy fz : bool) (st : static) (s : state) (e : ev) : state :=
           end
       | None => s
       end
+  | EWorker idle sv mx rate =>
+      (* globalCounterManager.doAcquire: ClientFor, acquireRequest (a counter takes part if requests were counted
+         or its last sync is more than 2 s old), the call, send = SetLimit + lastSyncTime := now *)
+      let s1 := set_rounds s (srounds s + 1) in
+      match worker_target st s idle with
+      | Some (w, i) =>
+          match sv with
+          | SvOmit => s1
+          | _ =>
+              match set_limit fx c i (reply_of sv mx rate) (request_time s) with
+              | Some i' => set_rem s1 (Some {| rin := Some (set_sync i' (now_sec s)); rcfg := rcfg w |})
+              | None => crash s1
+              end
+          end
+      | None => s1
+      end
+  | EWatchdog mx rate =>
+      (* resetCheck: now - lastSync > 4 => SetLimit(timeout error, no request time) *)
+      match rem s with
+      | Some w =>
+          match rin w with
+          | Some i =>
+              if has_counter i && (4 <? now_sec s - isync i) then
+                match set_limit fx c i (RErr mx rate) 0 with
+                | Some i' => set_rem s (Some {| rin := Some i'; rcfg := rcfg w |})
+                | None => crash s
+                end
+              else s
+          | None => s
+          end
+      | None => s
+      end
   | EHb ok => heartbeat s ok
   | ELeader => heartbeat s true
   | EElapse ms =>
       {| present := present s; scfg := scfg s; sstr := sstr s; rem := rem s; hlast := hlast s; hready := hready s;
          hage := hage s + (if ms <? 0 then 0 else ms);
-         crashed := crashed s |}                 (* time does not run backwards *)
+         crashed := crashed s; snow := snow s + (if ms <? 0 then 0 else ms);
+         srounds := srounds s |}                 (* time does not run backwards *)
   | EStrategy x => sync_schema fx fy fz s c x      (* the same schema with another strategy *)
   | ESchema k x a b g h => sync_schema fx fy fz s {| ck := k; l1 := a; l2 := b; g1 := g; g2 := h |} x
   | EDelete =>
       if present s
       then {| present := false; scfg := scfg s; sstr := sstr s; rem := None;
-              hlast := hlast s; hready := hready s; hage := hage s; crashed := crashed s |}
+              hlast := hlast s; hready := hready s; hage := hage s; crashed := crashed s; snow := snow s; srounds := srounds s |}
       else s
   | EEnable =>
       if present s && enable_global (sstr s)
@@ -430,7 +511,9 @@ Record obs := {
   o_lim : option lim;      (* size / qps,burst of the limiter a request is pinned to *)
   o_adm : Z;               (* max-in-flight: number of back-to-back TryAcquire admitted (capped); else -1 *)
   o_ready : bool;          (* clientSets.IsReady *)
-  o_rem : option robs      (* the remote wrapper, whether selected or not *)
+  o_rem : option robs;     (* the remote wrapper, whether selected or not *)
+  o_sync : Z;              (* lastSyncTime of the schema's global counter, -1: there is none *)
+  o_sent : bool            (* (worker round) the limiter server was asked for the schema *)
 }.
 
 (* the harness stops counting admissions at global + 5 (and at 70 for large limits) *)
@@ -452,9 +535,16 @@ Definition observe_rem (s : state) : option robs :=
            end
   end.
 
+Definition observe_sync (s : state) : Z :=
+  match rem s with
+  | Some w => match rin w with Some i => if has_counter i then isync i else -1 | None => -1 end
+  | None => -1
+  end.
+
 Definition observe (fx : bool) (st : static) (s : state) : obs :=
   if crashed s then
-    {| o_evp := true; o_sel := SelPanic; o_lim := None; o_adm := -1; o_ready := false; o_rem := None |}
+    {| o_evp := true; o_sel := SelPanic; o_lim := None; o_adm := -1; o_ready := false; o_rem := None;
+       o_sync := -1; o_sent := false |}
   else
     let se := select fx st s in
     let l := match se with
@@ -467,11 +557,22 @@ Definition observe (fx : bool) (st : static) (s : state) : obs :=
              | _ => None
              end in
     {| o_evp := false; o_sel := se; o_lim := l; o_adm := admitted (scfg s) l;
-       o_ready := is_ready st s; o_rem := observe_rem s |}.
+       o_ready := is_ready st s; o_rem := observe_rem s; o_sync := observe_sync s; o_sent := false |}.
+
+Definition with_sent (o : obs) (b : bool) : obs :=
+  {| o_evp := o_evp o; o_sel := o_sel o; o_lim := o_lim o; o_adm := o_adm o; o_ready := o_ready o; o_rem := o_rem o;
+     o_sync := o_sync o; o_sent := b |}.
+(* whether the round of event e reaches the limiter server with a request for the schema *)
+Definition sent_in (st : static) (s : state) (e : ev) : bool :=
+  match e with
+  | EWorker idle _ _ _ => negb (crashed s) && match worker_target st s idle with Some _ => true | None => false end
+  | _ => false
+  end.
 
 (* the trace the harness records: one observation after every event *)
 Fixpoint trace (fx fy fz : bool) (st : static) (s : state) (l : list ev) : list (ev * obs) :=
   match l with
   | [] => []
-  | e :: r => let s' := step fx fy fz st s e in (e, observe fx st s') :: trace fx fy fz st s' r
+  | e :: r => let s' := step fx fy fz st s e in
+              (e, with_sent (observe fx st s') (sent_in st s e)) :: trace fx fy fz st s' r
   end.
